@@ -85,6 +85,8 @@ def render_case(c):
                 out += ['[act]', ('' if src else '$ ') + _ACT_OBS % cid]
             elif a['kind'] == 'exit':
                 out += ['[act]', ('' if src else '$ ') + 'exit %d' % a['code']]
+            elif a['kind'] == 'sleep':
+                out += ['[act]', ('' if src else '$ ') + 'sleep 1.5']
             elif a['kind'] == 'py' and not src:
                 out += ['[act]', '% {PY} {PROBE} {OBS}/' + cid + '.py arg-of-' + cid]
             elif a['kind'] == 'py':
@@ -205,30 +207,60 @@ def _case(draw, cid, slow):
 
 
 def _orders(draw, n, max_orders):
+    """all orders for <= 4 cases (the quantifier: "in every order"); beyond: the given order, its reverse and random
+    ones, `max_orders` in all"""
     import itertools
-    perms = [list(p) for p in itertools.permutations(range(n))]
-    if len(perms) <= max_orders:
-        return perms
+    if n <= 4:
+        return [list(p) for p in itertools.permutations(range(n))]
     idx = list(range(n))
     out = [idx, idx[::-1]]
-    while len(out) < max_orders:
+    for _ in range(max_orders - 2):
         p = list(draw(st.permutations(idx)))
         if p not in out:
             out.append(p)
-        else:
-            out.append(idx[1:] + idx[:1])
-            break
-    res = []
-    for p in out:
-        if p not in res:
-            res.append(p)
-    return res
+    return out
 
 
 @st.composite
 def histories(draw, tier='quick'):
-    slow = chance(draw, 1, 25 if tier == 'quick' else 10)  # timeout = 1 in one case, sleep 1.5 in another: costs seconds
-    n = draw(w([(2, 4), (3, 5), (4, 2), (5, 1)])) if not slow else draw(w([(2, 2), (3, 1)]))
+    # timeout = 1 in one case, sleep 1.5 in another costs seconds: the quick tier has them in `slow_cases` only
+    slow = tier != 'quick' and chance(draw, 1, 10)
+    if slow:
+        n = draw(w([(2, 2), (3, 1)]))
+    elif tier == 'quick':
+        n = draw(w([(2, 8), (3, 10), (4, 2), (5, 2)]))
+    else:
+        n = draw(w([(2, 4), (3, 5), (4, 2), (5, 1)]))
     cases = [draw(_case('c%d' % i, slow)) for i in range(n)]
-    orders = _orders(draw, n, 2 if slow else 6 if tier == 'quick' else 12)
+    orders = _orders(draw, n, 6 if tier == 'quick' else 12)
+    if slow:
+        orders = orders[:2]
     return {'cases': cases, 'orders': orders, 'split': draw(st.integers(1, n - 1)) if chance(draw, 1, 4) else 0}
+
+
+# ---- the slow ones, enumerated: a timeout set by one case must not end the processes of the next -------------------
+def _plain_case(cid, ops, act_kind='none'):
+    full = {p: [] for p in IPHASES}
+    full.update(ops)
+    return {'id': cid, 'conf': {'status': None, 'actor': None, 'home': None, 'act_home': None}, 'ops': full,
+            'act': {'kind': act_kind, 'code': 0}}
+
+
+def timeout_histories(tier):
+    """case c0 sets `timeout = 1` in one phase; case c1 runs a process that needs 1.5 s (an instruction of one phase, or
+    the action to check) and never sets a timeout itself.  quick: 4 combinations of the phases, order c0 c1;
+    thorough: all 20, both orders, and with a third case between the two."""
+    combos = [(pa, pb) for pa in IPHASES for pb in IPHASES + ['act']]
+    if tier == 'quick':
+        combos = [('setup', 'act'), ('before-assert', 'setup'), ('assert', 'cleanup'), ('cleanup', 'assert')]
+    for pa, pb in combos:
+        c0 = _plain_case('c0', {pa: [['timeout', '1']], 'cleanup': [['obs']] if pa != 'cleanup' else
+                                [['timeout', '1'], ['obs']]})
+        if pb == 'act':
+            c1 = _plain_case('c1', {'assert': [['obs']]}, act_kind='sleep')
+        else:
+            c1 = _plain_case('c1', {pb: [['sleep'], ['obs']]})
+        yield {'cases': [c0, c1], 'orders': [[0, 1]] if tier == 'quick' else [[0, 1], [1, 0]], 'split': 0}
+        if tier != 'quick' and pa in ('setup', 'cleanup'):
+            c2 = _plain_case('c2', {'setup': [['env', 'VERIF_C17_A', 'v1']], 'assert': [['obs']]}, act_kind='exit')
+            yield {'cases': [c0, c2, c1], 'orders': [[0, 1, 2]], 'split': 1 if pb == 'act' else 0}
